@@ -226,5 +226,14 @@ func init() {
 		Rule: "each run = 2-4 clusters (one of them named like an alias of the pool), 8-45 steps of create/update with 0-3 server names drawn from a colliding mixed-case pool (incl. another cluster's name) and serving cert/client CA on or off, delete, re-create, admission lister or controller informer held back and released (conflicting claims reach the controller), clock advances, and stable points (no lag, 24 s later) with real requests whose Host header comes in drawn case with or without port; invariants at every boundary (a name resolves only to a claimant; an owner that claimed a name in every version never loses it), at stable points (deleted clusters stop resolving; with conflict-free latest objects resolution equals the claims; HTTP agrees with the manager) and TLS material per SNI at the end; distinct = distinct trace hash; non-trivial = at least 3 accepted writes",
 		Real: gwReal, Stub: gwStub, Assume: append([]string{"TLS selection is checked by calling WrapGetConfigForClient / SNIVerifyOptions directly (no handshakes are simulated)", "when two live latest objects claim one name the iff clause is not evaluated (which of them serves it is not stated)"}, gwAssume...),
 	})
+	reg(&Check{
+		ID:    "C16",
+		Title: "Admission validation is total, and what it accepts the data plane can apply",
+		Batches: []Batch{
+			{World: "gw", Profile: "c16-objects", Quick: 200, Thor: 12000, PerProc: 1, FaultFree: true},
+		},
+		Rule: "each run = 4-14 UpstreamCluster objects obtained from a valid template by 1-3 drawn mutations (endpoint strings with bad escapes/no scheme/mixed schemes/userinfo/spaces, client and serving key material empty/truncated/mismatched, every subset of the five flow-control members with nil/negative/MaxInt32 numbers and strategies, dangling subset/schema references, feature-gate strings, names), submitted as creates or as updates of an existing cluster through the real admission plugin; every admitted object is then applied by the real pipeline (store, informer, controller goroutine, ClusterInfo with its transports and probes) and by the limiter's store; distinct = distinct trace hash; non-trivial = at least one object admitted and one rejected",
+		Real: gwReal, Stub: gwStub, Assume: append([]string{"the deciding power is seeded object generation; the simulation adds that 'can be applied' is judged by the real pipeline including the controller's sync goroutine (panics there are recorded through apimachinery's panic handlers instead of killing the worker)", "the limiter server's UpstreamConditionHandler under leadership is exercised in the rl world; here its store-level consumers run"}, gwAssume...),
+	})
 	reg(&Check{ID: "SMOKE", Title: "debug", Batches: []Batch{{World: "gw", Profile: "smoke", Quick: 1, Thor: 1, PerProc: 1}}})
 }
